@@ -15,7 +15,7 @@
 (* pointer rdr[t]; exited threads' slots are reused by later threads.      *)
 (*                                                                         *)
 (* Threads run scenario programs (Prog): reader ops  lock unlock deref use *)
-(* reg, updater ops  pub(o) sync free,  thread ops  spawn(t) join(t).      *)
+(* reg, updater ops  pub(o) sync free,  thread ops  spawn(t) join(t) spawnjoin(t).      *)
 (* When its program ends a thread runs the key destructor (if registered)  *)
 (* and exits.  Decides C01 / C02 / C15 / C19 for bp.                       *)
 (*                                                                         *)
@@ -35,7 +35,7 @@ CONSTANTS Threads, Prog, TSO, Tracing, SBMax,
           SigBudget,      \* number of signal deliveries per execution
           SigInExit,      \* TRUE: signals may also arrive while the thread runs its key destructor / exits
           Skip,           \* mutation: fence labels that are no-ops
-          Mut             \* mutation switches: "norecheck" "noclear" "onephase" "noblock_reg" "maymove" (all off for claims)
+          Mut             \* mutation switches: "norecheck" "noclear" "onephase" "noblock_reg" "stuck" (all off for claims)
 
 PHASE == 65536
 NULL == "NULL"
@@ -112,8 +112,11 @@ macro Xchg(dst, loc, v)   { await Drained(self); dst := mem[loc]; mem[loc] := v;
 macro Mb()                { await Drained(self); acc := Ev(self, "mb", "-", "-", "-", "-"); }
 macro Lock(m)             { await Drained(self) /\ lock[m] = "free"; lock[m] := self; acc := Ev(self, "lock", m, "-", "-", "-"); }
 macro Unlock(m)           { await Drained(self); lock[m] := "free"; acc := Ev(self, "unlock", m, "-", "-", "-"); }
-\* pthread_sigmask(): thread-private state, executed together with the preceding step by the code
-macro SigMask(b)          { sigBlocked[self] := b; acc := EvS(self, "sigm", MaskName(b)); }
+\* sigfillset(); pthread_sigmask(SIG_BLOCK, &all, &oldmask): thread-private state; a scheduling point of the executed code
+\* (the driver makes sigfillset() one), so that a signal can still arrive between the caller's last step and the blocking
+macro SigBlock()          { om := sigBlocked[self]; sigBlocked[self] := TRUE; acc := Ev(self, "sigm", "blocked", "-", "-", "-"); }
+\* pthread_sigmask(SIG_SETMASK, &oldmask, NULL): executed together with the preceding step by the code
+macro SigRestore()        { sigBlocked[self] := om; acc := EvS(self, "sigm", MaskName(om)); }
 
 fair process (flusher \in Flushers) {
 fl: while (TRUE) {
@@ -135,15 +138,15 @@ variables i = 1, op = [op |-> "none"], res = "-",
 {
 t_start: await started[self];                                    \* the thread exists (created by a spawn op unless initial)
 t_top:  while (i <= Len(CurProg(self))) {
-          op := CurProg(self)[i]; res := "-";
-t_disp:   if (op.op = "lock") { goto rl_top }
+          op := CurProg(self)[i];
+          if (op.op = "lock") { goto rl_top }
           else if (op.op = "unlock") { goto ru_top }
           else if (op.op = "deref") { goto dr_ld }
           else if (op.op = "use") { assert held = NULL \/ alive[held]; goto t_ret }
           else if (op.op = "reg") { goto rg_top }
           else if (op.op = "pub") { goto p_xchg }
           else if (op.op = "sync") { goto s_call }
-          else if (op.op = "spawn") { goto sp_spawn }
+          else if (op.op \in {"spawn", "spawnjoin"}) { goto sp_spawn }
           else if (op.op = "join") { goto j_wait }
           else { if (old # NULL) { alive[old] := FALSE; res := old; old := NULL }; goto t_ret };   \* free
 
@@ -175,8 +178,7 @@ ru_st:    St(RctrOf[rdr[self]], tmp - 1);                        \* uatomic_stor
 rg_top:   if (rdr[self] = NULL) { rret := "reg"; goto g_block } else { goto t_ret };
 
         \* ---------------- urcu_bp_register: disable signals, take mutex, add to registry
-g_block:  om := sigBlocked[self];                                \* pthread_sigmask(SIG_BLOCK, &all, &oldmask)
-          if ("noblock_reg" \notin Mut) { SigMask(TRUE) };
+g_block:  if ("noblock_reg" \notin Mut) { SigBlock() };            \* pthread_sigmask(SIG_BLOCK, &all, &oldmask)
 g_chk:    if (rdr[self] # NULL /\ "norecheck" \notin Mut) { goto g_end };   \* a signal handler registered us since the check in rcu_read_lock()
 gi_lock:  Lock("init_lock"); refcount := refcount + 1;           \* _urcu_bp_init(): mutex_lock(&init_lock); urcu_bp_refcount++
 gi_unl:   Unlock("init_lock");
@@ -210,7 +212,7 @@ at_set:   keyval[self] := slot;                                  \* pthread_sets
           if (regSlot[self] = NULL) { regSlot[self] := slot };
           acc := EvS(self, "slot", slot);
 g_unl:    Unlock("registry_lock");
-g_end:    if ("noblock_reg" \notin Mut) { SigMask(om) };         \* pthread_sigmask(SIG_SETMASK, &oldmask, NULL)
+g_end:    if ("noblock_reg" \notin Mut) { SigRestore() };       \* pthread_sigmask(SIG_SETMASK, &oldmask, NULL)
           if (rret = "rl") { goto rl_rd } else { goto t_ret };
 
         \* ---------------- rcu_dereference(gptr), rcu_xchg_pointer(&gptr, obj)
@@ -220,15 +222,15 @@ p_xchg:   Xchg(old, "gptr", op.o); res := old;
           goto t_ret;
 
         \* ---------------- thread creation / join (driver level)
-sp_spawn: started[op.t] := TRUE;
-          goto t_ret;
-j_wait:   await pc[op.t] \in {"t_end", "Done"} /\ Drained(self);
+sp_spawn: started[op.t] := TRUE; acc := EvS(self, "spawned", op.t);                             \* spawnjoin = create the thread and wait until it has exited
+          if (op.op = "spawn") { goto t_ret };
+j_wait:   await pc[op.t] = "Done" /\ Drained(self);
           acc := Ev(self, "join", op.t, "-", "-", "-");
           goto t_ret;
 
         \* ---------------- urcu_bp_synchronize_rcu
 s_call:   pre[self] := OpenCS;
-s_block:  om := sigBlocked[self]; SigMask(TRUE);                 \* pthread_sigmask(SIG_BLOCK, &all, &oldmask)
+s_block:  SigBlock();                                          \* pthread_sigmask(SIG_BLOCK, &all, &oldmask)
 s_gplk:   Lock("gp_lock");
 s_rglk:   Lock("registry_lock");
           if (registry = <<>>) { goto s_out };                   \* if (cds_list_empty(&registry)) goto out
@@ -242,7 +244,7 @@ s_splice: registry := qsr \o registry || qsr := <<>>;             \* cds_list_sp
 s_mm2:    mret := "s_out"; goto master;
 s_out:    Unlock("registry_lock");
 s_gpun:   Unlock("gp_lock");
-s_rest:   SigMask(om);                                           \* pthread_sigmask(SIG_SETMASK, &oldmask, NULL)
+s_rest:   SigRestore();                                         \* pthread_sigmask(SIG_SETMASK, &oldmask, NULL)
 s_ret:    assert pre[self] \cap OpenCS = {};                     \* C01: every pre-existing critical section has ended
           pre[self] := {};
           goto t_ret;
@@ -255,7 +257,8 @@ w_scan:   if (scan = <<>>) { goto w_chk };                       \* cds_list_for
 w_ldr:    with (r = Head(scan)) {                                \* urcu_bp_reader_state: v = uatomic_load(ctr); plain read of gp.ctr
             v := Rd(self, RctrOf[r]); acc := Ev(self, "ld", RctrOf[r], "-", "-", Rd(self, RctrOf[r]));
             scan := Tail(scan);
-            if (Nest(Rd(self, RctrOf[r])) = 0) {                 \* INACTIVE: cds_list_move(&index->node, qsreaders)
+            if ("stuck" \in Mut) { skip }                        \* (liveness negative control: readers are never seen quiescent)
+            else if (Nest(Rd(self, RctrOf[r])) = 0) {            \* INACTIVE: cds_list_move(&index->node, qsreaders)
               if (ph = 1) { registry := Del(registry, r) } else { cursnap := Del(cursnap, r) }; qsr := <<r>> \o qsr
             } else if (Ph(Rd(self, RctrOf[r])) = Ph(Rd(self, "gp_ctr"))) {   \* ACTIVE_CURRENT
               if (ph = 1) { registry := Del(registry, r); cursnap := <<r>> \o cursnap }
@@ -270,21 +273,22 @@ w_lock:   Lock("registry_lock");
           goto w_loop;
 
         \* ---------------- smp_mb_master()
-master:   if (SysMb) { ipi := Threads; goto m_ipi } else { goto m_mb };
-m_mb:     if (~((mret = "s_p1" /\ "s_mm1" \in Skip) \/ (mret = "s_out" /\ "s_mm2" \in Skip))) { Mb() };
+master:   if ((mret = "s_p1" /\ "s_mm1" \in Skip) \/ (mret = "s_out" /\ "s_mm2" \in Skip)) { goto m_ret }
+          else if (SysMb) { ipi := Threads; goto m_ipi } else { goto m_mb };
+m_mb:     Mb();                                                  \* cmm_smp_mb()
           goto m_ret;
 m_ipi:    if (ipi # {}) { with (t \in ipi) { await Drained(t); ipi := ipi \ {t} }; goto m_ipi };
 m_sys:    acc := Ev(self, "sysmb", "-", "-", "-", "-");          \* membarrier() returns: every thread executed a barrier since the call
 m_ret:    if (mret = "s_p1") { goto s_p1 } else { goto s_out };
 
-t_ret:    i := i + 1;
+t_ret:    i := i + 1; res := "-";
         };
 t_after: await ~insig[self];                                     \* (the handler frame returns through SigReturn)
         \* ---------------- thread exit: glibc runs urcu_bp_thread_exit_notifier(value) while the key's value is not NULL
 x_chk:  if (keyval[self] = NULL) { goto t_end };
-x_block: keyval[self] := NULL;                                   \* (glibc clears the value before calling the destructor)
-        slot := rdr[self];
-        om := sigBlocked[self]; SigMask(TRUE);                   \* urcu_bp_unregister: pthread_sigmask(SIG_BLOCK, ...)
+x_block: slot := keyval[self];                                   \* the destructor's argument: the key's value, which glibc clears
+        keyval[self] := NULL;                                    \* before the call
+        SigBlock();                                              \* urcu_bp_unregister: pthread_sigmask(SIG_BLOCK, ...)
 x_lock: Lock("registry_lock");
 x_clr:  \* remove_thread -> cleanup_thread(find_chunk(reg), reg): ctr = 0 (plain), cds_list_del, tid = 0, alloc = 0, used--; TLS = NULL
         if (Tracing \/ ~TSO) { await Drained(self); mem[RctrOf[slot]] := 0 } else { sb[self] := Append(sb[self], <<RctrOf[slot], 0>>) };
@@ -293,13 +297,12 @@ x_clr:  \* remove_thread -> cleanup_thread(find_chunk(reg), reg): ctr = 0 (plain
         used[SlotChunk[slot] + 1] := used[SlotChunk[slot] + 1] - 1;
         rdr[self] := NULL; regSlot[self] := NULL;
 x_unl:  Unlock("registry_lock");
-x_rest: SigMask(om);                                             \* pthread_sigmask(SIG_SETMASK, &oldmask, NULL)
+x_rest: SigRestore();                                           \* pthread_sigmask(SIG_SETMASK, &oldmask, NULL)
 xe_lock: Lock("init_lock"); refcount := refcount - 1;            \* urcu_bp_exit(): mutex_lock(&init_lock); --urcu_bp_refcount
         assert refcount > 0;                                     \* (the arena is unmapped only by the library destructor)
 xe_unl: Unlock("init_lock");
         goto x_chk;                                              \* glibc looks at the key again (a handler may have registered the thread anew)
-t_end:  await Drained(self);
-        acc := Ev(self, "exit", "-", "-", "-", "-");
+t_end:  await Drained(self);                                     \* the thread is gone (its store buffer has been committed)
 }
 } *)
 \* BEGIN TRANSLATION
@@ -408,75 +411,67 @@ t_start(self) == /\ pc[self] = "t_start"
 t_top(self) == /\ pc[self] = "t_top"
                /\ IF i[self] <= Len(CurProg(self))
                      THEN /\ op' = [op EXCEPT ![self] = CurProg(self)[i[self]]]
-                          /\ res' = [res EXCEPT ![self] = "-"]
-                          /\ pc' = [pc EXCEPT ![self] = "t_disp"]
+                          /\ IF op'[self].op = "lock"
+                                THEN /\ pc' = [pc EXCEPT ![self] = "rl_top"]
+                                     /\ UNCHANGED << alive, res, old >>
+                                ELSE /\ IF op'[self].op = "unlock"
+                                           THEN /\ pc' = [pc EXCEPT ![self] = "ru_top"]
+                                                /\ UNCHANGED << alive, res, 
+                                                                old >>
+                                           ELSE /\ IF op'[self].op = "deref"
+                                                      THEN /\ pc' = [pc EXCEPT ![self] = "dr_ld"]
+                                                           /\ UNCHANGED << alive, 
+                                                                           res, 
+                                                                           old >>
+                                                      ELSE /\ IF op'[self].op = "use"
+                                                                 THEN /\ Assert(held[self] = NULL \/ alive[held[self]], 
+                                                                                "Failure of assertion at line 145, column 37.")
+                                                                      /\ pc' = [pc EXCEPT ![self] = "t_ret"]
+                                                                      /\ UNCHANGED << alive, 
+                                                                                      res, 
+                                                                                      old >>
+                                                                 ELSE /\ IF op'[self].op = "reg"
+                                                                            THEN /\ pc' = [pc EXCEPT ![self] = "rg_top"]
+                                                                                 /\ UNCHANGED << alive, 
+                                                                                                 res, 
+                                                                                                 old >>
+                                                                            ELSE /\ IF op'[self].op = "pub"
+                                                                                       THEN /\ pc' = [pc EXCEPT ![self] = "p_xchg"]
+                                                                                            /\ UNCHANGED << alive, 
+                                                                                                            res, 
+                                                                                                            old >>
+                                                                                       ELSE /\ IF op'[self].op = "sync"
+                                                                                                  THEN /\ pc' = [pc EXCEPT ![self] = "s_call"]
+                                                                                                       /\ UNCHANGED << alive, 
+                                                                                                                       res, 
+                                                                                                                       old >>
+                                                                                                  ELSE /\ IF op'[self].op \in {"spawn", "spawnjoin"}
+                                                                                                             THEN /\ pc' = [pc EXCEPT ![self] = "sp_spawn"]
+                                                                                                                  /\ UNCHANGED << alive, 
+                                                                                                                                  res, 
+                                                                                                                                  old >>
+                                                                                                             ELSE /\ IF op'[self].op = "join"
+                                                                                                                        THEN /\ pc' = [pc EXCEPT ![self] = "j_wait"]
+                                                                                                                             /\ UNCHANGED << alive, 
+                                                                                                                                             res, 
+                                                                                                                                             old >>
+                                                                                                                        ELSE /\ IF old[self] # NULL
+                                                                                                                                   THEN /\ alive' = [alive EXCEPT ![old[self]] = FALSE]
+                                                                                                                                        /\ res' = [res EXCEPT ![self] = old[self]]
+                                                                                                                                        /\ old' = [old EXCEPT ![self] = NULL]
+                                                                                                                                   ELSE /\ TRUE
+                                                                                                                                        /\ UNCHANGED << alive, 
+                                                                                                                                                        res, 
+                                                                                                                                                        old >>
+                                                                                                                             /\ pc' = [pc EXCEPT ![self] = "t_ret"]
                      ELSE /\ pc' = [pc EXCEPT ![self] = "t_after"]
-                          /\ UNCHANGED << op, res >>
+                          /\ UNCHANGED << alive, op, res, old >>
                /\ UNCHANGED << mem, sb, lock, acc, registry, cursnap, qsr, 
                                chunks, used, alloc, mremaps, refcount, rdr, 
                                keyval, sigBlocked, started, insig, saved, sigs, 
-                               hcs, alive, cs, pre, regSlot, i, tmp, g, held, 
-                               old, om, rret, slot, expanded, wl, ph, scan, v, 
-                               ipi, mret >>
-
-t_disp(self) == /\ pc[self] = "t_disp"
-                /\ IF op[self].op = "lock"
-                      THEN /\ pc' = [pc EXCEPT ![self] = "rl_top"]
-                           /\ UNCHANGED << alive, res, old >>
-                      ELSE /\ IF op[self].op = "unlock"
-                                 THEN /\ pc' = [pc EXCEPT ![self] = "ru_top"]
-                                      /\ UNCHANGED << alive, res, old >>
-                                 ELSE /\ IF op[self].op = "deref"
-                                            THEN /\ pc' = [pc EXCEPT ![self] = "dr_ld"]
-                                                 /\ UNCHANGED << alive, res, 
-                                                                 old >>
-                                            ELSE /\ IF op[self].op = "use"
-                                                       THEN /\ Assert(held[self] = NULL \/ alive[held[self]], 
-                                                                      "Failure of assertion at line 142, column 37.")
-                                                            /\ pc' = [pc EXCEPT ![self] = "t_ret"]
-                                                            /\ UNCHANGED << alive, 
-                                                                            res, 
-                                                                            old >>
-                                                       ELSE /\ IF op[self].op = "reg"
-                                                                  THEN /\ pc' = [pc EXCEPT ![self] = "rg_top"]
-                                                                       /\ UNCHANGED << alive, 
-                                                                                       res, 
-                                                                                       old >>
-                                                                  ELSE /\ IF op[self].op = "pub"
-                                                                             THEN /\ pc' = [pc EXCEPT ![self] = "p_xchg"]
-                                                                                  /\ UNCHANGED << alive, 
-                                                                                                  res, 
-                                                                                                  old >>
-                                                                             ELSE /\ IF op[self].op = "sync"
-                                                                                        THEN /\ pc' = [pc EXCEPT ![self] = "s_call"]
-                                                                                             /\ UNCHANGED << alive, 
-                                                                                                             res, 
-                                                                                                             old >>
-                                                                                        ELSE /\ IF op[self].op = "spawn"
-                                                                                                   THEN /\ pc' = [pc EXCEPT ![self] = "sp_spawn"]
-                                                                                                        /\ UNCHANGED << alive, 
-                                                                                                                        res, 
-                                                                                                                        old >>
-                                                                                                   ELSE /\ IF op[self].op = "join"
-                                                                                                              THEN /\ pc' = [pc EXCEPT ![self] = "j_wait"]
-                                                                                                                   /\ UNCHANGED << alive, 
-                                                                                                                                   res, 
-                                                                                                                                   old >>
-                                                                                                              ELSE /\ IF old[self] # NULL
-                                                                                                                         THEN /\ alive' = [alive EXCEPT ![old[self]] = FALSE]
-                                                                                                                              /\ res' = [res EXCEPT ![self] = old[self]]
-                                                                                                                              /\ old' = [old EXCEPT ![self] = NULL]
-                                                                                                                         ELSE /\ TRUE
-                                                                                                                              /\ UNCHANGED << alive, 
-                                                                                                                                              res, 
-                                                                                                                                              old >>
-                                                                                                                   /\ pc' = [pc EXCEPT ![self] = "t_ret"]
-                /\ UNCHANGED << mem, sb, lock, acc, registry, cursnap, qsr, 
-                                chunks, used, alloc, mremaps, refcount, rdr, 
-                                keyval, sigBlocked, started, insig, saved, 
-                                sigs, hcs, cs, pre, regSlot, i, op, tmp, g, 
-                                held, om, rret, slot, expanded, wl, ph, scan, 
-                                v, ipi, mret >>
+                               hcs, cs, pre, regSlot, i, tmp, g, held, om, 
+                               rret, slot, expanded, wl, ph, scan, v, ipi, 
+                               mret >>
 
 rl_top(self) == /\ pc[self] = "rl_top"
                 /\ IF rdr[self] = NULL
@@ -577,7 +572,7 @@ rl_nest(self) == /\ pc[self] = "rl_nest"
 
 ru_top(self) == /\ pc[self] = "ru_top"
                 /\ Assert(held[self] = NULL \/ alive[held[self]], 
-                          "Failure of assertion at line 164, column 11.")
+                          "Failure of assertion at line 167, column 11.")
                 /\ tmp' = [tmp EXCEPT ![self] = Rd(self, RctrOf[rdr[self]])]
                 /\ IF Nest(tmp'[self]) = 1
                       THEN /\ held' = [held EXCEPT ![self] = NULL]
@@ -639,12 +634,12 @@ rg_top(self) == /\ pc[self] = "rg_top"
                                 scan, v, ipi, mret >>
 
 g_block(self) == /\ pc[self] = "g_block"
-                 /\ om' = [om EXCEPT ![self] = sigBlocked[self]]
                  /\ IF "noblock_reg" \notin Mut
-                       THEN /\ sigBlocked' = [sigBlocked EXCEPT ![self] = TRUE]
-                            /\ acc' = EvS(self, "sigm", MaskName(TRUE))
+                       THEN /\ om' = [om EXCEPT ![self] = sigBlocked[self]]
+                            /\ sigBlocked' = [sigBlocked EXCEPT ![self] = TRUE]
+                            /\ acc' = Ev(self, "sigm", "blocked", "-", "-", "-")
                        ELSE /\ TRUE
-                            /\ UNCHANGED << acc, sigBlocked >>
+                            /\ UNCHANGED << acc, sigBlocked, om >>
                  /\ pc' = [pc EXCEPT ![self] = "g_chk"]
                  /\ UNCHANGED << mem, sb, lock, registry, cursnap, qsr, chunks, 
                                  used, alloc, mremaps, refcount, rdr, keyval, 
@@ -711,7 +706,7 @@ aa_scan(self) == /\ pc[self] = "aa_scan"
                                    /\ used' = [used EXCEPT ![c + 1] = used[c + 1] + 1]
                             /\ pc' = [pc EXCEPT ![self] = "at_set"]
                        ELSE /\ Assert(~expanded[self], 
-                                      "Failure of assertion at line 192, column 20.")
+                                      "Failure of assertion at line 194, column 20.")
                             /\ pc' = [pc EXCEPT ![self] = "ea_top"]
                             /\ UNCHANGED << used, alloc, slot >>
                  /\ UNCHANGED << mem, sb, lock, acc, registry, cursnap, qsr, 
@@ -724,7 +719,7 @@ aa_scan(self) == /\ pc[self] = "aa_scan"
 ea_top(self) == /\ pc[self] = "ea_top"
                 /\ expanded' = [expanded EXCEPT ![self] = TRUE]
                 /\ Assert(FreeSlots = {}, 
-                          "Failure of assertion at line 195, column 11.")
+                          "Failure of assertion at line 197, column 11.")
                 /\ IF chunks = <<>>
                       THEN /\ pc' = [pc EXCEPT ![self] = "ea_mmap0"]
                       ELSE /\ pc' = [pc EXCEPT ![self] = "ea_mremap"]
@@ -778,7 +773,7 @@ ea_mmap(self) == /\ pc[self] = "ea_mmap"
 at_set(self) == /\ pc[self] = "at_set"
                 /\ keyval' = [keyval EXCEPT ![self] = slot[self]]
                 /\ Assert(mem[RctrOf[slot[self]]] = 0, 
-                          "Failure of assertion at line 207, column 11.")
+                          "Failure of assertion at line 209, column 11.")
                 /\ registry' = <<slot[self]>> \o registry
                 /\ rdr' = [rdr EXCEPT ![self] = slot[self]]
                 /\ IF regSlot[self] = NULL
@@ -849,8 +844,11 @@ p_xchg(self) == /\ pc[self] = "p_xchg"
 
 sp_spawn(self) == /\ pc[self] = "sp_spawn"
                   /\ started' = [started EXCEPT ![op[self].t] = TRUE]
-                  /\ pc' = [pc EXCEPT ![self] = "t_ret"]
-                  /\ UNCHANGED << mem, sb, lock, acc, registry, cursnap, qsr, 
+                  /\ acc' = EvS(self, "spawned", op[self].t)
+                  /\ IF op[self].op = "spawn"
+                        THEN /\ pc' = [pc EXCEPT ![self] = "t_ret"]
+                        ELSE /\ pc' = [pc EXCEPT ![self] = "j_wait"]
+                  /\ UNCHANGED << mem, sb, lock, registry, cursnap, qsr, 
                                   chunks, used, alloc, mremaps, refcount, rdr, 
                                   keyval, sigBlocked, insig, saved, sigs, hcs, 
                                   alive, cs, pre, regSlot, i, op, res, tmp, g, 
@@ -858,7 +856,7 @@ sp_spawn(self) == /\ pc[self] = "sp_spawn"
                                   scan, v, ipi, mret >>
 
 j_wait(self) == /\ pc[self] = "j_wait"
-                /\ pc[op[self].t] \in {"t_end", "Done"} /\ Drained(self)
+                /\ pc[op[self].t] = "Done" /\ Drained(self)
                 /\ acc' = Ev(self, "join", op[self].t, "-", "-", "-")
                 /\ pc' = [pc EXCEPT ![self] = "t_ret"]
                 /\ UNCHANGED << mem, sb, lock, registry, cursnap, qsr, chunks, 
@@ -881,7 +879,7 @@ s_call(self) == /\ pc[self] = "s_call"
 s_block(self) == /\ pc[self] = "s_block"
                  /\ om' = [om EXCEPT ![self] = sigBlocked[self]]
                  /\ sigBlocked' = [sigBlocked EXCEPT ![self] = TRUE]
-                 /\ acc' = EvS(self, "sigm", MaskName(TRUE))
+                 /\ acc' = Ev(self, "sigm", "blocked", "-", "-", "-")
                  /\ pc' = [pc EXCEPT ![self] = "s_gplk"]
                  /\ UNCHANGED << mem, sb, lock, registry, cursnap, qsr, chunks, 
                                  used, alloc, mremaps, refcount, rdr, keyval, 
@@ -1053,7 +1051,7 @@ s_rest(self) == /\ pc[self] = "s_rest"
 
 s_ret(self) == /\ pc[self] = "s_ret"
                /\ Assert(pre[self] \cap OpenCS = {}, 
-                         "Failure of assertion at line 246, column 11.")
+                         "Failure of assertion at line 248, column 11.")
                /\ pre' = [pre EXCEPT ![self] = {}]
                /\ pc' = [pc EXCEPT ![self] = "t_ret"]
                /\ UNCHANGED << mem, sb, lock, acc, registry, cursnap, qsr, 
@@ -1103,24 +1101,28 @@ w_ldr(self) == /\ pc[self] = "w_ldr"
                     /\ v' = [v EXCEPT ![self] = Rd(self, RctrOf[r])]
                     /\ acc' = Ev(self, "ld", RctrOf[r], "-", "-", Rd(self, RctrOf[r]))
                     /\ scan' = [scan EXCEPT ![self] = Tail(scan[self])]
-                    /\ IF Nest(Rd(self, RctrOf[r])) = 0
-                          THEN /\ IF ph[self] = 1
-                                     THEN /\ registry' = Del(registry, r)
-                                          /\ UNCHANGED cursnap
-                                     ELSE /\ cursnap' = Del(cursnap, r)
-                                          /\ UNCHANGED registry
-                               /\ qsr' = <<r>> \o qsr
-                          ELSE /\ IF Ph(Rd(self, RctrOf[r])) = Ph(Rd(self, "gp_ctr"))
+                    /\ IF "stuck" \in Mut
+                          THEN /\ TRUE
+                               /\ UNCHANGED << registry, cursnap, qsr >>
+                          ELSE /\ IF Nest(Rd(self, RctrOf[r])) = 0
                                      THEN /\ IF ph[self] = 1
                                                 THEN /\ registry' = Del(registry, r)
-                                                     /\ cursnap' = <<r>> \o cursnap
-                                                     /\ qsr' = qsr
+                                                     /\ UNCHANGED cursnap
                                                 ELSE /\ cursnap' = Del(cursnap, r)
-                                                     /\ qsr' = <<r>> \o qsr
                                                      /\ UNCHANGED registry
-                                     ELSE /\ TRUE
-                                          /\ UNCHANGED << registry, cursnap, 
-                                                          qsr >>
+                                          /\ qsr' = <<r>> \o qsr
+                                     ELSE /\ IF Ph(Rd(self, RctrOf[r])) = Ph(Rd(self, "gp_ctr"))
+                                                THEN /\ IF ph[self] = 1
+                                                           THEN /\ registry' = Del(registry, r)
+                                                                /\ cursnap' = <<r>> \o cursnap
+                                                                /\ qsr' = qsr
+                                                           ELSE /\ cursnap' = Del(cursnap, r)
+                                                                /\ qsr' = <<r>> \o qsr
+                                                                /\ UNCHANGED registry
+                                                ELSE /\ TRUE
+                                                     /\ UNCHANGED << registry, 
+                                                                     cursnap, 
+                                                                     qsr >>
                /\ pc' = [pc EXCEPT ![self] = "w_scan"]
                /\ UNCHANGED << mem, sb, lock, chunks, used, alloc, mremaps, 
                                refcount, rdr, keyval, sigBlocked, started, 
@@ -1176,11 +1178,14 @@ w_lock(self) == /\ pc[self] = "w_lock"
                                 scan, v, ipi, mret >>
 
 master(self) == /\ pc[self] = "master"
-                /\ IF SysMb
-                      THEN /\ ipi' = [ipi EXCEPT ![self] = Threads]
-                           /\ pc' = [pc EXCEPT ![self] = "m_ipi"]
-                      ELSE /\ pc' = [pc EXCEPT ![self] = "m_mb"]
+                /\ IF (mret[self] = "s_p1" /\ "s_mm1" \in Skip) \/ (mret[self] = "s_out" /\ "s_mm2" \in Skip)
+                      THEN /\ pc' = [pc EXCEPT ![self] = "m_ret"]
                            /\ ipi' = ipi
+                      ELSE /\ IF SysMb
+                                 THEN /\ ipi' = [ipi EXCEPT ![self] = Threads]
+                                      /\ pc' = [pc EXCEPT ![self] = "m_ipi"]
+                                 ELSE /\ pc' = [pc EXCEPT ![self] = "m_mb"]
+                                      /\ ipi' = ipi
                 /\ UNCHANGED << mem, sb, lock, acc, registry, cursnap, qsr, 
                                 chunks, used, alloc, mremaps, refcount, rdr, 
                                 keyval, sigBlocked, started, insig, saved, 
@@ -1189,11 +1194,8 @@ master(self) == /\ pc[self] = "master"
                                 wl, ph, scan, v, mret >>
 
 m_mb(self) == /\ pc[self] = "m_mb"
-              /\ IF ~((mret[self] = "s_p1" /\ "s_mm1" \in Skip) \/ (mret[self] = "s_out" /\ "s_mm2" \in Skip))
-                    THEN /\ Drained(self)
-                         /\ acc' = Ev(self, "mb", "-", "-", "-", "-")
-                    ELSE /\ TRUE
-                         /\ acc' = acc
+              /\ Drained(self)
+              /\ acc' = Ev(self, "mb", "-", "-", "-", "-")
               /\ pc' = [pc EXCEPT ![self] = "m_ret"]
               /\ UNCHANGED << mem, sb, lock, registry, cursnap, qsr, chunks, 
                               used, alloc, mremaps, refcount, rdr, keyval, 
@@ -1240,13 +1242,14 @@ m_ret(self) == /\ pc[self] = "m_ret"
 
 t_ret(self) == /\ pc[self] = "t_ret"
                /\ i' = [i EXCEPT ![self] = i[self] + 1]
+               /\ res' = [res EXCEPT ![self] = "-"]
                /\ pc' = [pc EXCEPT ![self] = "t_top"]
                /\ UNCHANGED << mem, sb, lock, acc, registry, cursnap, qsr, 
                                chunks, used, alloc, mremaps, refcount, rdr, 
                                keyval, sigBlocked, started, insig, saved, sigs, 
-                               hcs, alive, cs, pre, regSlot, op, res, tmp, g, 
-                               held, old, om, rret, slot, expanded, wl, ph, 
-                               scan, v, ipi, mret >>
+                               hcs, alive, cs, pre, regSlot, op, tmp, g, held, 
+                               old, om, rret, slot, expanded, wl, ph, scan, v, 
+                               ipi, mret >>
 
 t_after(self) == /\ pc[self] = "t_after"
                  /\ ~insig[self]
@@ -1270,11 +1273,11 @@ x_chk(self) == /\ pc[self] = "x_chk"
                                scan, v, ipi, mret >>
 
 x_block(self) == /\ pc[self] = "x_block"
+                 /\ slot' = [slot EXCEPT ![self] = keyval[self]]
                  /\ keyval' = [keyval EXCEPT ![self] = NULL]
-                 /\ slot' = [slot EXCEPT ![self] = rdr[self]]
                  /\ om' = [om EXCEPT ![self] = sigBlocked[self]]
                  /\ sigBlocked' = [sigBlocked EXCEPT ![self] = TRUE]
-                 /\ acc' = EvS(self, "sigm", MaskName(TRUE))
+                 /\ acc' = Ev(self, "sigm", "blocked", "-", "-", "-")
                  /\ pc' = [pc EXCEPT ![self] = "x_lock"]
                  /\ UNCHANGED << mem, sb, lock, registry, cursnap, qsr, chunks, 
                                  used, alloc, mremaps, refcount, rdr, started, 
@@ -1347,7 +1350,7 @@ xe_lock(self) == /\ pc[self] = "xe_lock"
                  /\ acc' = Ev(self, "lock", "init_lock", "-", "-", "-")
                  /\ refcount' = refcount - 1
                  /\ Assert(refcount' > 0, 
-                           "Failure of assertion at line 298, column 9.")
+                           "Failure of assertion at line 302, column 9.")
                  /\ pc' = [pc EXCEPT ![self] = "xe_unl"]
                  /\ UNCHANGED << mem, sb, registry, cursnap, qsr, chunks, used, 
                                  alloc, mremaps, rdr, keyval, sigBlocked, 
@@ -1370,38 +1373,36 @@ xe_unl(self) == /\ pc[self] = "xe_unl"
 
 t_end(self) == /\ pc[self] = "t_end"
                /\ Drained(self)
-               /\ acc' = Ev(self, "exit", "-", "-", "-", "-")
                /\ pc' = [pc EXCEPT ![self] = "Done"]
-               /\ UNCHANGED << mem, sb, lock, registry, cursnap, qsr, chunks, 
-                               used, alloc, mremaps, refcount, rdr, keyval, 
-                               sigBlocked, started, insig, saved, sigs, hcs, 
-                               alive, cs, pre, regSlot, i, op, res, tmp, g, 
-                               held, old, om, rret, slot, expanded, wl, ph, 
+               /\ UNCHANGED << mem, sb, lock, acc, registry, cursnap, qsr, 
+                               chunks, used, alloc, mremaps, refcount, rdr, 
+                               keyval, sigBlocked, started, insig, saved, sigs, 
+                               hcs, alive, cs, pre, regSlot, i, op, res, tmp, 
+                               g, held, old, om, rret, slot, expanded, wl, ph, 
                                scan, v, ipi, mret >>
 
-thr(self) == t_start(self) \/ t_top(self) \/ t_disp(self) \/ rl_top(self)
-                \/ rl_rd(self) \/ rl_ld(self) \/ rl_st(self) \/ rl_mb(self)
-                \/ rl_in(self) \/ rl_nest(self) \/ ru_top(self)
-                \/ ru_mb(self) \/ ru_st(self) \/ rg_top(self)
-                \/ g_block(self) \/ g_chk(self) \/ gi_lock(self)
-                \/ gi_unl(self) \/ g_lock(self) \/ aa_scan(self)
-                \/ ea_top(self) \/ ea_mmap0(self) \/ ea_mremap(self)
-                \/ ea_mmap(self) \/ at_set(self) \/ g_unl(self)
-                \/ g_end(self) \/ dr_ld(self) \/ p_xchg(self)
-                \/ sp_spawn(self) \/ j_wait(self) \/ s_call(self)
-                \/ s_block(self) \/ s_gplk(self) \/ s_rglk(self)
-                \/ s_mm1(self) \/ s_p1(self) \/ s_mb2(self) \/ s_flip(self)
-                \/ s_mb3(self) \/ s_p2(self) \/ s_splice(self)
-                \/ s_mm2(self) \/ s_out(self) \/ s_gpun(self)
-                \/ s_rest(self) \/ s_ret(self) \/ w_top(self)
-                \/ w_loop(self) \/ w_scan(self) \/ w_ldr(self)
-                \/ w_chk(self) \/ w_unl(self) \/ w_wait(self)
-                \/ w_lock(self) \/ master(self) \/ m_mb(self)
-                \/ m_ipi(self) \/ m_sys(self) \/ m_ret(self) \/ t_ret(self)
-                \/ t_after(self) \/ x_chk(self) \/ x_block(self)
-                \/ x_lock(self) \/ x_clr(self) \/ x_unl(self)
-                \/ x_rest(self) \/ xe_lock(self) \/ xe_unl(self)
-                \/ t_end(self)
+thr(self) == t_start(self) \/ t_top(self) \/ rl_top(self) \/ rl_rd(self)
+                \/ rl_ld(self) \/ rl_st(self) \/ rl_mb(self) \/ rl_in(self)
+                \/ rl_nest(self) \/ ru_top(self) \/ ru_mb(self)
+                \/ ru_st(self) \/ rg_top(self) \/ g_block(self)
+                \/ g_chk(self) \/ gi_lock(self) \/ gi_unl(self)
+                \/ g_lock(self) \/ aa_scan(self) \/ ea_top(self)
+                \/ ea_mmap0(self) \/ ea_mremap(self) \/ ea_mmap(self)
+                \/ at_set(self) \/ g_unl(self) \/ g_end(self)
+                \/ dr_ld(self) \/ p_xchg(self) \/ sp_spawn(self)
+                \/ j_wait(self) \/ s_call(self) \/ s_block(self)
+                \/ s_gplk(self) \/ s_rglk(self) \/ s_mm1(self)
+                \/ s_p1(self) \/ s_mb2(self) \/ s_flip(self) \/ s_mb3(self)
+                \/ s_p2(self) \/ s_splice(self) \/ s_mm2(self)
+                \/ s_out(self) \/ s_gpun(self) \/ s_rest(self)
+                \/ s_ret(self) \/ w_top(self) \/ w_loop(self)
+                \/ w_scan(self) \/ w_ldr(self) \/ w_chk(self)
+                \/ w_unl(self) \/ w_wait(self) \/ w_lock(self)
+                \/ master(self) \/ m_mb(self) \/ m_ipi(self) \/ m_sys(self)
+                \/ m_ret(self) \/ t_ret(self) \/ t_after(self)
+                \/ x_chk(self) \/ x_block(self) \/ x_lock(self)
+                \/ x_clr(self) \/ x_unl(self) \/ x_rest(self)
+                \/ xe_lock(self) \/ xe_unl(self) \/ t_end(self)
 
 Next == (\E self \in Flushers: flusher(self))
            \/ (\E self \in Threads: thr(self))
@@ -1458,7 +1459,7 @@ SigReturn(t) ==
   /\ slot' = [slot EXCEPT ![t] = saved[t].slot]
   /\ expanded' = [expanded EXCEPT ![t] = saved[t].expanded]
   /\ saved' = [saved EXCEPT ![t] = <<>>]
-  /\ acc' = Ev(t, "sig_exit", "-", "-", "-", "-")
+  /\ acc' = EvS(t, "sig_exit", "-")                                \* (sigreturn is not a scheduling point of its own)
   /\ UNCHANGED <<globalsNoSig, sigs, old, wl, ph, scan, v, ipi, mret>>
 
 SigNext == \/ \E self \in Flushers : flusher(self)
